@@ -36,7 +36,39 @@ STAGES["C18"] = [
          crash_is_violation=True),
 ]
 
+STAGES["C11"] = [
+    dict(name="buffer", pkg="z", test="TestVf_C11", replay_test="TestVfReplay_C11",
+         quick=(2500, 1), thorough=(10000, 16), crash_is_violation=True),
+]
+
+STAGES["C12"] = [
+    dict(name="seq", pkg="z", test="TestVf_C12_Seq", replay_test="TestVfReplay_C12",
+         quick=(3000, 1), thorough=(20000, 16), crash_is_violation=True),
+    dict(name="conc", pkg="z", test="TestVf_C12_Conc", flavour="race",
+         quick=(250, 1), thorough=(1500, 16), crash_is_violation=True, race_is_violation=True),
+]
+
 RULES = {
+    "C12": "seq stage: rapid state machine: initial size 0..8192; Allocate / AllocateAligned / Copy with sizes 0, 1..64, remaining-1, "
+           "remaining, remaining+1, around the chunk end, 2*chunk+1, up to 1 MiB; Reset, TrimTo(m > first chunk)+Reset, and "
+           "Reset+replay of the requests since the last Reset. Oracle: exact length, pairwise disjoint address intervals, every "
+           "slice filled with an id-derived pattern that must be intact before each Reset and at the end, aligned results 8-byte "
+           "aligned and zero (also after the arena was dirtied and Reset), Copy equal to and distinct from its input, Allocated() "
+           "unchanged by a replay (unless a TrimTo happened). conc stage (-race): 2..32 goroutines x 1..40 requests biased to "
+           "100..600 bytes on a 512-byte first chunk, GOMAXPROCS 2..16, each program run 3 times; same oracle over all goroutines' "
+           "slices + race detector. Non-trivial: seq: >=2 chunk switches; conc: >=2 chunk switches and at >=1 chunk switch two "
+           "calls of different goroutines that started before anything was returned from the new chunk both landed in it (a "
+           "measured proxy for '>=2 goroutines overshooting the same chunk'); distinct = FNV hash of the request lists.",
+    "C11": "rapid: mode calloc / mmap tmp file / calloc+WithAutoMmap(threshold 64..8192), capacity 0..4096, optional WithMaxSize 16..3000; "
+           "either a raw program (Write, Allocate+fill, AllocateOffset+fill, Reset) or a slice program (WriteSlice, SliceAllocate+fill, "
+           "bulk appends, Reset, SortSlice, SortSliceBetween over generated slice-index ranges) - never mixed; lengths 0, 1..64, "
+           ">capacity, up to 3000; slice counts up to ~3080 with bulk sizes placed around 1024/2048/3072; comparison functions "
+           "lexicographic, reverse, length-then-lex, first-byte-only (ties); contents from alphabets of 1,2,3,26,256 symbols. Oracle: "
+           "reference []byte / [][]byte: Bytes() equality, SliceIterate / Slice walk / SliceOffsets yield the non-empty slices in order, "
+           "sort = same multiset, adjacent pairs ordered, bytes outside the range untouched; max size: a fitting write succeeds, an "
+           "exceeding write panics and leaves the content unchanged, LenWithPadding <= max. Non-trivial: growth happened with data "
+           "present (in auto-mmap mode: the calloc->mmap switch with data) and, if the case sorts, a sort of >=1025 slices or of a "
+           "proper sub-range; distinct = FNV hash of (config, ops).",
     "C19": "rapid: NewBloomFilter(entries 1..2^18, locations 1..16) or (entries, rate 1e-12..0.999); 1..300 ops from Add/AddIfNotHas/Has/"
            "Clear/JSON round trip over hashes that are random, 0, 2^64-1, low-half-zero (all locations coincide), high-half-zero, "
            "half all-ones, shifted, or repeats of used hashes; up to 200 extra probe hashes. Oracle: reference set (added and not "
